@@ -445,8 +445,8 @@ async fn poll_case(rep: &mut Report, tr: Transport, rcvtimeo: i32, wave: usize, 
       let ep2 = ep.clone();
       hs.push(tokio::spawn(async move {
         let d = ctx2.socket(SocketType::Dealer).unwrap();
-        util::set_i32(&d, opt::RCVTIMEO, 3000).await;
-        util::set_i32(&d, opt::SNDTIMEO, 1500).await;
+        util::set_i32(&d, opt::RCVTIMEO, 3000 * util::slow_factor() as i32).await;
+        util::set_i32(&d, opt::SNDTIMEO, 1500 * util::slow_factor() as i32).await;
         if !anonymous {
           d.set_option_raw(opt::ROUTING_ID, &name).await.unwrap();
         }
